@@ -307,7 +307,7 @@ def check_lexprog(crate, rep, cfg):
             else:
                 rep.ok("C06.LEXPROG", key, b.where(head), what + " [%s: %s]" % (kind, detail))
         # non-zero consumption on the two pure-skip paths of the main loop
-    rep.floor("C06.LEXPROG", "loops in parsing::lexer [%s]" % cfg, n_loops, 29)
+    rep.floor("C06.LEXPROG", "loops in parsing::lexer [%s]" % cfg, n_loops, 20)
 
 
 def consuming_functions(crate):
@@ -604,6 +604,16 @@ def check_patch_jt(crate, rep, cfg):
                             for a in s3["args"][1:]:
                                 if a["k"] in ("copy", "move") and a["pl"]["l"] in idx_locals:
                                     recorded = True
+                        h = crate.bodies.get(cd)
+                        if h is not None and h is not b and h.kind != "closure" and "parsing/compiler.rs" in (h.j.get("file") or ""):
+                            # a private patching helper: the index is handed to a function whose parameter goes to Chunk::get_mut
+                            for ai, a in enumerate(s3["args"]):
+                                if a["k"] in ("copy", "move") and a["pl"]["l"] in idx_locals:
+                                    pl_ = ai + 1
+                                    hl = derived_locals(h, pl_) | {pl_}
+                                    for b4, t4 in find_calls(h, ["parsing::instructions::Chunk::get_mut"]):
+                                        if any(x["k"] in ("copy", "move") and x["pl"]["l"] in hl for x in t4["args"][1:]):
+                                            recorded = True
                 elif s3["k"] == "assign" and s3["rv"]["k"] == "agg" and (s3["rv"].get("adt") or "").endswith("ProcessingBody"):
                     for op in s3["rv"]["ops"]:
                         if op["k"] in ("copy", "move") and op["pl"]["l"] in idx_locals:
@@ -628,7 +638,7 @@ def check_patch_jt(crate, rep, cfg):
             counts["patch"] = counts.get("patch", 0) + 1
             (rep.ok if ok else rep.bad)("C06.JT", key, b.where(bb, idx), "a patched jump target comes from Chunk::len() / a recorded index (<= chunk length, so index_map[target] and the VM's "
                                         "ip stay in range)" + ("" if ok else " — VIOLATED: origin %s" % sorted(leaf_str(l) for l in leaves)[:2]))
-    for v, fl in (("PopJumpIfFalse", 4), ("Jump", 3), ("Iterate", 2), ("JumpIfFalseOrPop", 1), ("JumpIfTrueOrPop", 1), ("patch", 5)):
+    for v, fl in (("PopJumpIfFalse", 4), ("Jump", 3), ("Iterate", 2), ("JumpIfFalseOrPop", 1), ("JumpIfTrueOrPop", 1), ("patch", 3)):
         rep.floor("C06.PATCH", "compiler sites: %s [%s]" % (v, cfg), counts.get(v, 0), fl)
     # R-PAIR on processing_bodies: pushes == pops per function, and every pop site assigns payloads
     for b in comp:
